@@ -508,6 +508,15 @@ def _step_convert(M, op):
         o.z0 = (list(src.z0) + pad)[:np_] if not src.fz else []
         o.fz0 = [(list(v) + pad)[:np_] for v in src.fz0]
         alts.append(Alt(True, 0, {dname: o}))
+        if acc is None and is_zin:
+            # input impedances of a 0-port matrix: 1x0 or 0x0, the manual
+            # does not say
+            oz = o.clone()
+            oz.data = list(o.data)
+            oz.rows = oz.cols = 0
+            oz.z0 = [] if not oz.fz else []
+            oz.fz0 = [[] for _ in oz.fz0]
+            alts.append(Alt(True, 0, {dname: oz}))
         if dname != sname and src.fz and src.F == 0:
             # nothing per-frequency to carry over: the mode of the result
             # is not determined by "impedances are carried over"
@@ -562,28 +571,28 @@ def emit(script, op, dump=True):
         elif fn == "vnadata_set_frequency":
             ln = script.op(fn, obj, a[0], _hx(a[1]))
         elif fn == "vnadata_set_frequency_vector":
-            script.rvec("b", a[0])
-            ln = script.op(fn, obj, "@b")
+            script.rvec("q_", a[0])
+            ln = script.op(fn, obj, "@q_")
         elif fn == "vnadata_set_cell":
             ln = script.op(fn, obj, a[0], a[1], a[2], _cx(a[3]))
         elif fn == "vnadata_set_matrix":
-            script.cvec("b", a[1])
-            ln = script.op(fn, obj, a[0], "@b")
+            script.cvec("q_", a[1])
+            ln = script.op(fn, obj, a[0], "@q_")
         elif fn == "vnadata_set_from_vector":
-            script.cvec("b", a[2])
-            ln = script.op(fn, obj, a[0], a[1], "@b")
+            script.cvec("q_", a[2])
+            ln = script.op(fn, obj, a[0], a[1], "@q_")
         elif fn == "vnadata_set_z0":
             ln = script.op(fn, obj, a[0], _cx(a[1]))
         elif fn == "vnadata_set_all_z0":
             ln = script.op(fn, obj, _cx(a[0]))
         elif fn == "vnadata_set_z0_vector":
-            script.cvec("b", a[0])
-            ln = script.op(fn, obj, "@b")
+            script.cvec("q_", a[0])
+            ln = script.op(fn, obj, "@q_")
         elif fn == "vnadata_set_fz0":
             ln = script.op(fn, obj, a[0], a[1], _cx(a[2]))
         elif fn == "vnadata_set_fz0_vector":
-            script.cvec("b", a[1])
-            ln = script.op(fn, obj, a[0], "@b")
+            script.cvec("q_", a[1])
+            ln = script.op(fn, obj, a[0], "@q_")
         else:  # getters: plain integer arguments
             ln = script.op(fn, obj, *a)
     dl = {}
@@ -706,8 +715,9 @@ class Monitor(object):
     def judge(self, res, text, steps, first_dumps, stats=None, hook=None):
         """steps: list of (op, line, {obj: dumpline}).  Returns (violation
         dict or None, number of steps judged, last judged line, models).
-        hook(op, alt, ev, M, dumps) may add checks of its own (C05) and
-        returns a violation dict or None."""
+        hook(op, alt, ev, before, M, dumps) may add checks of its own (C05:
+        before / M are the models before / after the step) and returns a
+        violation dict (key, desc) or None."""
         M = {o: VD() for o in self.objects}
         meta = {}
         lines = text.split("\n")
@@ -772,6 +782,7 @@ class Monitor(object):
                 return viol(kindname, fn, desc, last_line), judged, \
                     last_line, M
             # adopt
+            before = dict(M)
             for o, st in chosen.states.items():
                 M[o] = st.clone()
                 if o in obs:
@@ -790,7 +801,7 @@ class Monitor(object):
                                 last_line), judged, last_line, M
                 meta[o] = mt
             if hook is not None:
-                v = hook(op, chosen, ev, M, obs)
+                v = hook(op, chosen, ev, before, M, obs)
                 if v is not None:
                     v = dict(v)
                     v.setdefault("script", "\n".join(lines[:last_line]) + "\n")
@@ -967,16 +978,17 @@ class Gen(object):
         return t, 1, self.dim(vd.cols, 1)
 
     # -- operations
-    def next_ops(self):
-        """one random operation (a list: forced follow-ups come first)"""
+    def next_ops(self, names=None):
+        """one random operation on one of `names` (default: all objects; the
+        first one is used most)"""
         if self.pending:
             op = self.pending.pop(0)
             return op
         rng = self.rng
+        names = list(names or self.objects)
         kind = self.kinds[int(rng.choice(len(self.kinds), p=self.probs))]
-        name = self.objects[0] if (len(self.objects) == 1 or
-                                   rng.random() < 0.7) else \
-            self.objects[self.ri(1, len(self.objects) - 1)]
+        name = names[0] if (len(names) == 1 or rng.random() < 0.7) else \
+            names[self.ri(1, len(names) - 1)]
         vd = self.M[name]
         F, rows, cols, ports = vd.F, vd.rows, vd.cols, vd.ports
         if kind in ("resize", "init"):
@@ -1052,8 +1064,9 @@ class Gen(object):
                                     "vnadata_get_type"])), name)
         if kind == "convert":
             dst = name
-            if len(self.objects) > 1 and rng.random() < 0.45:
-                dst = [o for o in self.objects if o != name][0]
+            if len(names) > 1 and rng.random() < 0.45:
+                others = [o for o in names if o != name]
+                dst = others[self.ri(0, len(others) - 1)]
             if rng.random() < 0.75:
                 cands = [t for t in range(NTYPES)
                          if convert_accepts(vd, t)[0]]
@@ -1065,7 +1078,7 @@ class Gen(object):
 
     def advance(self, op):
         """apply the primary outcome to the generator's model; when the
-        allowed outcomes differ in dimensions, force a valid init next so
+        allowed outcomes differ in type or dimensions, force a valid init next so
         that later buffers are sized for a known state"""
         alts = step(self.M, op)
         prim = alts[0]
@@ -1074,7 +1087,8 @@ class Gen(object):
             for alt in alts:
                 for o in self.objects:
                     st = alt.states.get(o, self.M[o])
-                    shapes.setdefault(o, set()).add((st.rows, st.cols, st.F))
+                    shapes.setdefault(o, set()).add((st.type, st.rows, st.cols,
+                                                     st.F))
             for o, ss in shapes.items():
                 if len(ss) > 1:
                     self.pending.append(self.valid_init(o))
